@@ -7,7 +7,13 @@
 package c01
 
 import (
+	"bufio"
+	"encoding/json"
 	"fmt"
+	"io"
+	"os"
+	"os/exec"
+	"path/filepath"
 	"strings"
 	"sync"
 	"time"
@@ -163,27 +169,160 @@ type caseDesc struct {
 	Trace    []int64 `json:"trace"`
 }
 
+const maxEvals = 200000 // Function.Eval calls per program; generated programs stay far below (see meta extra)
+
 // evaluates the top-level forms one after the other in a fresh top-level scope
-func evalProgram(src string, lo, hi int64) (common.Outcome, []int64) {
+func evalProgram(src string, lo, hi int64) (common.Outcome, []int64, int) {
 	takeTrace(0, 0)
 	scope := slip.NewScope()
-	// Function.Eval calls the hook: an evaluation that is abandoned after the deadline stops itself
+	// Function.Eval calls the hook: an evaluation that runs away (or is abandoned after the deadline) stops itself
+	// before the Go stack is exhausted
 	deadline := time.Now().Add(4 * time.Second)
+	evals := 0
 	scope.InterruptCheck = func() {
-		if time.Now().After(deadline) {
+		evals++
+		if evals > maxEvals || (evals&1023 == 0 && time.Now().After(deadline)) {
 			panic("verif: deadline")
 		}
 	}
-	o := common.EvalTimeout(scope, src, 5*time.Second)
+	o := common.EvalTimeout(scope, src, 6*time.Second)
 	if o.Err == "go-panic" && strings.Contains(o.Msg, "verif: deadline") {
 		o = common.Outcome{Err: "timeout"}
 	}
-	return o, takeTrace(lo, hi)
+	return o, takeTrace(lo, hi), evals
+}
+
+// ---- worker process: the interpreter runs in a child, so that a crash of the host (stack exhaustion in a scope
+// cycle, a fatal runtime error) is attributed to the program that caused it instead of ending the run
+
+type request struct {
+	Src string `json:"src"`
+	Lo  int64  `json:"lo"`
+	Hi  int64  `json:"hi"`
+}
+type reply struct {
+	Obs     string  `json:"obs"`   // Gallina term of the observation
+	Shown   string  `json:"shown"` // human readable
+	Kind    string  `json:"kind"`  // value | multiple-values | error | timeout
+	Trace   []int64 `json:"trace"`
+	Evals   int     `json:"evals"`
+	Crashed bool    `json:"crashed,omitempty"`
+}
+
+const replyMark = "\x01C01 "
+
+func observe(q request) reply {
+	o, trace, evals := evalProgram(q.Src, q.Lo, q.Hi)
+	r := reply{Trace: trace, Evals: evals}
+	switch {
+	case o.Err == "timeout":
+		r.Kind = "timeout"
+	case o.Err != "":
+		r.Obs, r.Shown, r.Kind = "OErr "+errTerm(o), "!"+o.Err+": "+o.Msg, "error"
+	default:
+		if mv, ok := o.Value.(slip.Values); ok {
+			items := make([]string, len(mv))
+			for i, e := range mv {
+				items[i] = toVal(e, 0)
+			}
+			r.Obs, r.Kind = "OVal "+common.GList(items), "multiple-values"
+		} else {
+			r.Obs, r.Kind = "OVal ["+toVal(o.Value, 0)+"]", "value"
+		}
+		r.Shown = o.Printed
+	}
+	return r
+}
+
+// Worker serves requests on stdin until it is closed.
+func Worker(ctx *common.Ctx) {
+	defineTr()
+	rd := bufio.NewReaderSize(os.Stdin, 1<<20)
+	for {
+		line, err := rd.ReadBytes('\n')
+		if err != nil {
+			os.Exit(0)
+		}
+		var q request
+		if err = json.Unmarshal(line, &q); err != nil {
+			os.Exit(3)
+		}
+		data, _ := json.Marshal(observe(q))
+		fmt.Printf("%s%s\n", replyMark, data)
+	}
+}
+
+type worker struct {
+	cmd   *exec.Cmd
+	in    io.WriteCloser
+	lines chan string
+}
+
+func startWorker(outDir string) *worker {
+	self, err := os.Executable()
+	if err != nil {
+		panic(err)
+	}
+	cmd := exec.Command(self, "C01W", "--out", filepath.Join(outDir, "worker"))
+	cmd.Stderr = io.Discard
+	in, err := cmd.StdinPipe()
+	if err != nil {
+		panic(err)
+	}
+	out, err := cmd.StdoutPipe()
+	if err != nil {
+		panic(err)
+	}
+	if err = cmd.Start(); err != nil {
+		panic(err)
+	}
+	w := &worker{cmd: cmd, in: in, lines: make(chan string, 4)}
+	go func() {
+		rd := bufio.NewReaderSize(out, 1<<20)
+		for {
+			line, err := rd.ReadString('\n')
+			if strings.HasPrefix(line, replyMark) {
+				w.lines <- strings.TrimPrefix(line, replyMark)
+			}
+			if err != nil {
+				close(w.lines)
+				return
+			}
+		}
+	}()
+	return w
+}
+
+func (w *worker) stop() {
+	_ = w.in.Close()
+	_ = w.cmd.Process.Kill()
+	_ = w.cmd.Wait()
+}
+
+// eval returns the reply, or Crashed when the child died or did not answer
+func (w *worker) eval(q request) reply {
+	data, _ := json.Marshal(q)
+	if _, err := w.in.Write(append(data, '\n')); err != nil {
+		return reply{Crashed: true}
+	}
+	select {
+	case line, ok := <-w.lines:
+		if !ok {
+			return reply{Crashed: true}
+		}
+		var r reply
+		if err := json.Unmarshal([]byte(line), &r); err != nil {
+			return reply{Crashed: true}
+		}
+		return r
+	case <-time.After(20 * time.Second):
+		return reply{Crashed: true}
+	}
 }
 
 func Run(ctx *common.Ctx) {
 	defineTr()
-	ncases := 1600
+	ncases := 2400
 	if ctx.Thorough() {
 		ncases = 40000
 	}
@@ -191,7 +330,10 @@ func Run(ctx *common.Ctx) {
 	var descs []any
 	distinct := map[string]bool{}
 	var kbase int64
-	for n := 0; len(terms) < ncases; n++ {
+	maxSeen := 0
+	w := startWorker(ctx.OutDir)
+	defer func() { w.stop() }()
+	for n := 0; len(terms) < ncases && n < 3*ncases && len(ctx.Meta.Direct) < 60; n++ {
 		kbase += 1000
 		g := &gen{r: ctx.Rng, k: kbase, prefix: fmt.Sprintf("c%d", n), hist: ctx.Hist, errs: ctx.Rng.Chance(10)}
 		forms := g.program()
@@ -200,37 +342,28 @@ func Run(ctx *common.Ctx) {
 			ctx.Hist("discard:long-program")
 			continue
 		}
-		o, trace := evalProgram(src, kbase, kbase+1000)
-		if o.Err == "timeout" {
+		r := w.eval(request{Src: src, Lo: kbase, Hi: kbase + 1000})
+		if r.Crashed {
+			ctx.Violate("the interpreter brought down (or blocked) the host process", src, "worker process died", nil)
+			w.stop()
+			w = startWorker(ctx.OutDir)
+			continue
+		}
+		if r.Kind == "timeout" {
 			// generated programs always terminate: a hang is a failure of the interpreter
 			ctx.Violate("evaluation does not terminate", src, "timeout", nil)
 			continue
 		}
+		trace := r.Trace
 		if len(trace) > 400 {
 			ctx.Hist("discard:long-trace")
 			continue
 		}
-		var obs, shown string
-		if o.Err != "" {
-			obs = "OErr " + errTerm(o)
-			shown = "!" + o.Err + ": " + o.Msg
-			ctx.Hist("outcome:error")
-		} else {
-			var vs string
-			if mv, ok := o.Value.(slip.Values); ok {
-				items := make([]string, len(mv))
-				for i, e := range mv {
-					items[i] = toVal(e, 0)
-				}
-				vs = common.GList(items)
-				ctx.Hist("outcome:multiple-values")
-			} else {
-				vs = "[" + toVal(o.Value, 0) + "]"
-				ctx.Hist("outcome:value")
-			}
-			obs = "OVal " + vs
-			shown = o.Printed
+		if r.Evals > maxSeen {
+			maxSeen = r.Evals
 		}
+		obs, shown := r.Obs, r.Shown
+		ctx.Hist("outcome:" + r.Kind)
 		tz := make([]string, len(trace))
 		for i, k := range trace {
 			tz[i] = fmt.Sprint(k)
@@ -249,6 +382,7 @@ func Run(ctx *common.Ctx) {
 		}
 	}
 	ctx.Meta.DistinctNontrivial = len(distinct)
+	ctx.Meta.Extra = map[string]any{"max_function_evals_in_one_program": maxSeen, "function_eval_limit": maxEvals}
 	ctx.Meta.Rule = "typed random programs (nesting depth <= 6, 30-80 nodes; up to 2 preceding defuns, some recursive on a counter, some closed over let variables) over constants, variables, quote of arbitrary data, progn, prog1, if, when, unless, cond, case, and, or, let, let*, setq, lambda, funcall, apply, mapcar, function designators, dolist, dotimes, do, do*, values, multiple-value-bind and integer/list built-ins, with (tr k e) probes in every evaluated position and reuse of variable names (shadowing); observable = value(s) or condition class + trace; distinct = distinct programs whose trace is not empty"
 	header := "From C01 Require Import Model Corr.\nOpen Scope string_scope.\n"
 	footer := "Definition res := Eval vm_compute in check_all cases.\nPrint res.\n" +
